@@ -518,3 +518,250 @@ Section Real.
       congruence.
   Qed.
 End Real.
+
+(* ================================================================== *)
+(* 3. the real parameters: fuel                                        *)
+(* ================================================================== *)
+
+From RM Require Import Proofs.TickBound.
+From Flocq Require Import Core BinarySingleNaN.
+From Coq Require Import Reals.
+Open Scope Z_scope.
+
+(* when SliderEventsIter::new(..).collect() runs out of fuel: the tick loop of
+   a span exhausted [tf], or the stream has at least [fuel] events *)
+Theorem events_with_fuel_cases fuel tf start dur vel td total n :
+  0 <= n <= i32_max ->
+  events_with fuel tf start dur vel td total n = OutOfFuel ->
+  let p := SliderEvents.mkP start dur vel td total n in
+  SliderEvents.events_spec SliderEvents.ops64 tf p = OutOfFuel \/
+  exists evs, SliderEvents.events_spec SliderEvents.ops64 tf p = Done evs /\ (fuel <= length evs)%nat.
+Proof.
+  intros Hn H p. unfold events_with in H. fold p in H.
+  destruct (SliderEvents.run SliderEvents.ops64 false fuel tf p []) as [l|w|] eqn:E; cbn [obind] in H;
+    try discriminate.
+  destruct (SliderEvents.events_spec SliderEvents.ops64 tf p) as [evs|w|] eqn:Es.
+  - right. exists evs. split; [reflexivity|].
+    destruct (Nat.ltb (length evs) fuel) eqn:El; [|apply Nat.ltb_ge in El; exact El].
+    apply Nat.ltb_lt in El. exfalso.
+    rewrite (run_eq_spec SliderEvents.ops64 false tf fuel p [] Hn) in E; [congruence|].
+    intros evs' Ee. rewrite Es in Ee. inversion Ee; subst. exact El.
+  - exfalso. rewrite (run_eq_spec SliderEvents.ops64 false tf fuel p [] Hn) in E; [congruence|].
+    intros evs' Ee. rewrite Es in Ee. discriminate.
+  - left. reflexivity.
+Qed.
+
+(* enough fuel, explicitly: with a clamped tick distance >= 2^-k (when it is
+   positive at all) every span has at most 100000 * 2^k ticks, so
+   tf > 100000 * 2^k + 1  and  fuel > 3 + n * (100000 * 2^k + 1)  suffice *)
+Theorem events_with_done fuel tf start dur vel td total n k :
+  0 <= n <= i32_max -> nn64 total = true -> 0 <= k <= 30 ->
+  (forall tdc, D.clamp_chk td D.zero (D.min (SliderEvents.c_max_len SliderEvents.ops64) total) = Done tdc ->
+               D.lt D.zero tdc = true -> is_finite tdc = true /\ (bpow radix2 (- k) <= B2R tdc)%R) ->
+  100000 * 2 ^ k + 1 < Z.of_nat tf ->
+  3 + n * (100000 * 2 ^ k + 1) < Z.of_nat fuel ->
+  exists evs, events_with fuel tf start dur vel td total n = Done evs.
+Proof.
+  intros Hn Ht Hk Htd Htf Hfuel.
+  assert (Hp2 : 0 < 2 ^ k) by (apply Z.pow_pos_nonneg; lia).
+  set (p := SliderEvents.mkP start dur vel td total n).
+  assert (Hspec : exists evs, SliderEvents.events_spec SliderEvents.ops64 tf p = Done evs /\
+                              (length evs < fuel)%nat).
+  { unfold SliderEvents.events_spec.
+    change (SliderEvents.f_clamp_chk SliderEvents.ops64 (SliderEvents.p_td p) (SliderEvents.c_zero SliderEvents.ops64)
+              (SliderEvents.sp_len SliderEvents.ops64 p))
+      with (D.clamp_chk td D.zero (D.min (SliderEvents.c_max_len SliderEvents.ops64) total)).
+    destruct (D.clamp_chk td D.zero (D.min (SliderEvents.c_max_len SliderEvents.ops64) total)) as [tdc|w|] eqn:Ec.
+    - cbn [obind].
+      destruct (sp_len_le p Ht) as (Fl & Rl0 & Rl).
+      assert (Hd : exists ds, (if 0 <? SliderEvents.p_n p
+                               then SliderEvents.span_dists SliderEvents.ops64 tf
+                                      (SliderEvents.sp_len SliderEvents.ops64 p)
+                                      (SliderEvents.sp_mdfe SliderEvents.ops64 p) tdc
+                               else Done []) = Done ds /\ Z.of_nat (length ds) <= 100000 * 2 ^ k).
+      { destruct (0 <? SliderEvents.p_n p); [|exists []; split; [reflexivity|cbn [length]; lia]].
+        destruct (D.lt D.zero tdc) eqn:Epos.
+        - destruct (Htd tdc eq_refl Epos) as (Ftd & Rtd).
+          assert (Hbig : 100000 * 2 ^ k + 2 < 2 ^ 53).
+          { assert (2 ^ k <= 2 ^ 30) by (apply Z.pow_le_mono_r; lia). lia. }
+          destruct (span_dists_bound (SliderEvents.sp_len SliderEvents.ops64 p)
+                      (SliderEvents.sp_mdfe SliderEvents.ops64 p) tdc k 100000 tf
+                      ltac:(lia) ltac:(lia) Hbig Fl Rl Ftd Rtd Htf) as (ds & Eds & Hlen).
+          exists ds. split; [exact Eds|exact Hlen].
+        - exists []. split; [|cbn [length]; lia]. unfold SliderEvents.span_dists.
+          change (SliderEvents.f_lt SliderEvents.ops64 (SliderEvents.c_zero SliderEvents.ops64) tdc)
+            with (D.lt D.zero tdc). rewrite Epos. reflexivity. }
+      destruct Hd as (ds & -> & Hlen). cbn [obind]. eexists. split; [reflexivity|].
+      pose proof (sp_events_length_le SliderEvents.ops64 (SliderEvents.p_start p) (SliderEvents.p_dur p)
+                    (SliderEvents.sp_len SliderEvents.ops64 p) (SliderEvents.p_n p) ds) as Hl.
+      cbn [SliderEvents.p_n p] in Hl.
+      assert (Z.of_nat (Z.to_nat n * (length ds + 1)) <= n * (100000 * 2 ^ k + 1)) by nia.
+      change (SliderEvents.p_n p) with n. lia.
+    - (* the clamp does not panic: total is not negative *)
+      exfalso. pose proof (iter_new_panics_iff p []) as C. cbn [SliderEvents.p_total p] in C.
+      rewrite nn64_lt_zero, Ht in C. cbn [negb] in C. destruct C as (x & C).
+      unfold SliderEvents.iter_new in C.
+      change (SliderEvents.f_clamp_chk SliderEvents.ops64 (SliderEvents.p_td p)
+                (SliderEvents.c_zero SliderEvents.ops64)
+                (SliderEvents.f_min SliderEvents.ops64 (SliderEvents.c_max_len SliderEvents.ops64)
+                   (SliderEvents.p_total p)))
+        with (D.clamp_chk td D.zero (D.min (SliderEvents.c_max_len SliderEvents.ops64) total)) in C.
+      rewrite Ec in C. discriminate.
+    - exfalso. unfold D.clamp_chk, fclamp in Ec. destruct (fle _ _ _ _); discriminate. }
+  destruct Hspec as (evs & Es & Hl).
+  unfold events_with. fold p.
+  rewrite (run_eq_spec SliderEvents.ops64 false tf fuel p [] Hn).
+  - rewrite Es. cbn [obind]. eauto.
+  - intros evs' Ee. rewrite Es in Ee. inversion Ee; subst. exact Hl.
+Qed.
+
+(* ---------- the tick distances the encoder derives ---------- *)
+
+(* fn slider_events: tick_dist *)
+Definition osu_tick_dist (c : ControlPoints) (start : F64) (s : Slider) (version : Z) (tick_rate : F64) : F64 :=
+  let beat_len := match timing_point_at c start with Some p => tp_beat_len p | None => default_beat_len end in
+  let dp := last_not_after dp_time (cp_difficulty c) start in
+  let sv := match dp with Some p => dp_sv p | None => D.one end in
+  let gen_ticks := match dp with Some p => dp_ticks p | None => true end in
+  if gen_ticks
+  then D.mul (D.div (D.mul (sl_velocity s) beat_len) tick_rate) (tick_dist_multiplier version sv)
+  else D.inf false.
+
+(* fn juicestream_events: tick_dist *)
+Definition catch_tick_dist (c : ControlPoints) (start : F64) (version : Z) (tick_rate slider_mult : F64) : F64 :=
+  let sv := match last_not_after dp_time (cp_difficulty c) start with Some p => dp_sv p | None => D.one end in
+  D.mul (D.div (D.mul (f64_of_f32 (dec32' base_scoring_dist_dec)) slider_mult) tick_rate)
+        (tick_dist_multiplier version sv).
+
+(* slider.duration / span_count *)
+Definition span_duration (s : Slider) (d : F64) : F64 :=
+  D.div (D.div (D.mul (D.of_Z (sl_repeat_count s + 1)) d) (sl_velocity s)) (D.of_Z (sl_repeat_count s + 1)).
+
+Section Unfold.
+  Variable dist_of : Z -> list PCP -> option F64 -> outcome F64.
+  Variable events_of : F64 -> F64 -> F64 -> F64 -> F64 -> Z -> outcome (list EncEvent).
+
+  Lemma slider_events_unfold start s version tick_rate c d :
+    cp_sorted c -> dist_of (sl_mode s) (sl_control_points s) (sl_expected_dist s) = Done d ->
+    slider_events dist_of events_of start s version tick_rate c =
+    events_of start (span_duration s d) (sl_velocity s) (osu_tick_dist c start s version tick_rate) d
+              (sl_repeat_count s + 1).
+  Proof.
+    intros (_ & Hd & _) Ed. unfold slider_events, difficulty_point_at, osu_tick_dist, span_duration.
+    rewrite (at_opt_spec dp_time _ _ Hd). cbn [obind].
+    destruct (last_not_after dp_time (cp_difficulty c) start) as [p|];
+      unfold enc_slider_duration, slider_curve_dist; rewrite Ed; cbn [obind]; reflexivity.
+  Qed.
+
+  Lemma juicestream_events_unfold start s version tick_rate slider_mult c d :
+    cp_sorted c -> dist_of (sl_mode s) (sl_control_points s) (sl_expected_dist s) = Done d ->
+    juicestream_events dist_of events_of start s version tick_rate slider_mult c =
+    events_of start (span_duration s d) (sl_velocity s) (catch_tick_dist c start version tick_rate slider_mult) d
+              (sl_repeat_count s + 1).
+  Proof.
+    intros (_ & Hd & _) Ed. unfold juicestream_events, difficulty_point_at, catch_tick_dist, span_duration.
+    rewrite (at_opt_spec dp_time _ _ Hd). cbn [obind].
+    unfold enc_slider_duration, slider_curve_dist; rewrite Ed; cbn [obind]; reflexivity.
+  Qed.
+End Unfold.
+
+Section RealFuel.
+  Variable lm : Curve.Libm.
+  Variables fuel tf : nat.
+  Notation dreal := (DrvEnc.dist_real lm).
+  Notation ereal := (events_with fuel tf).
+
+  (* the tick distance the iterator ends up with is at least 2^-k, if positive *)
+  Definition tick_dist_ge (k : Z) (td total : F64) : Prop :=
+    forall tdc, D.clamp_chk td D.zero (D.min (SliderEvents.c_max_len SliderEvents.ops64) total) = Done tdc ->
+                D.lt D.zero tdc = true -> is_finite tdc = true /\ (bpow radix2 (- k) <= B2R tdc)%R.
+
+  Definition slider_ticks_ok (k : Z) (m : BeatmapV) (h : HitObject) : Prop :=
+    let ho := bmv_ho m in
+    match h_kind h with
+    | KSlider s =>
+        forall d, dreal (sl_mode s) (sl_control_points s) (sl_expected_dist s) = Done d ->
+          (g_mode (hov_general ho) = 0 ->
+           tick_dist_ge k (osu_tick_dist (hov_control_points ho) (h_start h) s (bmv_version m)
+                                         (d_slider_tick_rate (hov_difficulty ho))) d) /\
+          (g_mode (hov_general ho) = 2 ->
+           tick_dist_ge k (catch_tick_dist (hov_control_points ho) (h_start h) (bmv_version m)
+                                           (d_slider_tick_rate (hov_difficulty ho))
+                                           (d_slider_multiplier (hov_difficulty ho))) d)
+    | _ => True
+    end.
+
+  (* OutOfFuel can only come out of the slider-event calls: the curve returned
+     a value for the same arguments during decoding, `0..=span_count` is a
+     bounded loop because repeat_count >= 0 *)
+  Theorem encode_fuel_only_events lines bv :
+    decode_beatmap (dist_of_curve lm) lines = Done bv ->
+    map_events_avoid dreal ereal BFuel bv ->
+    encode_tokens dreal ereal bv <> OutOfFuel.
+  Proof.
+    intros H He. apply avoids_fuel_iff. apply encode_avoids; [exact (decoded_shape lm lines bv H)|exact He].
+  Qed.
+
+  (* and with tick distances bounded below, the stated fuel is enough *)
+  Theorem map_avoids_fuel k m :
+    map_shape dreal m -> neg_dist_class lm m = false -> 0 <= k <= 30 ->
+    Forall (slider_ticks_ok k m) (hov_hit_objects (bmv_ho m)) ->
+    100000 * 2 ^ k + 1 < Z.of_nat tf ->
+    3 + repeat_cap * (100000 * 2 ^ k + 1) < Z.of_nat fuel ->
+    map_events_avoid dreal ereal BFuel m.
+  Proof.
+    intros (Hc & Hf) Hn Hk Ht Htf Hfuel. unfold map_events_avoid.
+    apply Forall_forall. intros h Hin. rewrite Forall_forall in Hf, Ht.
+    specialize (Hf h Hin). specialize (Ht h Hin).
+    unfold events_avoid, obj_fin, slider_ticks_ok in *.
+    destruct (h_kind h) as [ci|s|sp|hd] eqn:Ek; try exact I.
+    destruct Hf as (((Hr0 & Hr1) & Hreq) & d & Hd).
+    destruct (Ht d Hd) as (T0 & T2).
+    assert (Hrange : 0 <= sl_repeat_count s + 1 <= i32_max) by (pose proof repeat_cap_i32; lia).
+    assert (Hfuel' : 3 + (sl_repeat_count s + 1) * (100000 * 2 ^ k + 1) < Z.of_nat fuel).
+    { assert (0 <= 100000 * 2 ^ k + 1) by (assert (0 < 2 ^ k) by (apply Z.pow_pos_nonneg; lia); lia). nia. }
+    assert (Hnn : (g_mode (hov_general (bmv_ho m)) = 0 \/ g_mode (hov_general (bmv_ho m)) = 2) -> nn64 d = true).
+    { intros Hm. unfold neg_dist_class in Hn.
+      replace ((g_mode (hov_general (bmv_ho m)) =? 0) || (g_mode (hov_general (bmv_ho m)) =? 2)) with true in Hn by lia.
+      cbn [andb] in Hn.
+      destruct (nn64 d) eqn:E; [reflexivity|]. exfalso.
+      assert (existsb (neg_dist_slider lm) (hov_hit_objects (bmv_ho m)) = true).
+      { apply existsb_exists. exists h. split; [exact Hin|]. unfold neg_dist_slider. rewrite Ek.
+        rewrite <- dist_real_eq, Hd, nn64_lt_zero, E. reflexivity. }
+      congruence. }
+    split; intros Hm.
+    - rewrite (slider_events_unfold dreal ereal _ _ _ _ _ d Hc Hd).
+      apply done_avoids.
+      exact (events_with_done fuel tf _ _ _ _ _ _ k Hrange (Hnn (or_introl Hm)) Hk (T0 Hm) Htf Hfuel').
+    - rewrite (juicestream_events_unfold dreal ereal _ _ _ _ _ _ d Hc Hd).
+      apply done_avoids.
+      exact (events_with_done fuel tf _ _ _ _ _ _ k Hrange (Hnn (or_intror Hm)) Hk (T2 Hm) Htf Hfuel').
+  Qed.
+
+  (* RE-ENCODING COMPLETES: a decoded map outside the negative-distance class
+     whose sliders have tick distances >= 2^-k yields its token stream *)
+  Theorem encode_completes lines bv k :
+    decode_beatmap (dist_of_curve lm) lines = Done bv ->
+    neg_dist_class lm bv = false -> 0 <= k <= 30 ->
+    Forall (slider_ticks_ok k bv) (hov_hit_objects (bmv_ho bv)) ->
+    100000 * 2 ^ k + 1 < Z.of_nat tf ->
+    3 + repeat_cap * (100000 * 2 ^ k + 1) < Z.of_nat fuel ->
+    exists toks, encode_tokens dreal ereal bv = Done toks.
+  Proof.
+    intros H Hn Hk Ht Htf Hfuel. pose proof (decoded_shape lm lines bv H) as Hm.
+    apply encode_done; [exact Hm| |].
+    - exact (map_avoids_panic lm fuel tf bv Hm Hn).
+    - exact (map_avoids_fuel k bv Hm Hn Hk Ht Htf Hfuel).
+  Qed.
+
+  (* taiko and mania maps: no slider events at all; always completes *)
+  Theorem encode_completes_taiko_mania lines bv :
+    decode_beatmap (dist_of_curve lm) lines = Done bv ->
+    g_mode (hov_general (bmv_ho bv)) <> 0 -> g_mode (hov_general (bmv_ho bv)) <> 2 ->
+    exists toks, encode_tokens dreal ereal bv = Done toks.
+  Proof.
+    intros H H0 H2. pose proof (decoded_shape lm lines bv H) as Hm.
+    apply encode_done; [exact Hm| |]; unfold map_events_avoid; apply Forall_forall; intros h _;
+      apply events_avoid_other_modes; assumption.
+  Qed.
+End RealFuel.
